@@ -786,9 +786,19 @@ class ModuleVistor(NodeVisitor):
         else:
             annotation = unstring_annotation(ast.Constant(type_comment, lineno=lineno), self.builder.current)
 
-        for target in node.targets:
-            if isinstance(target, ast.Tuple):
+        def unpacked(target: ast.expr) -> Iterator[ast.expr]:
+            # The names bound by an unpacking target: 'a, b', '[a, b]', 'a, *b', '(a, (b, c))'.
+            if isinstance(target, (ast.Tuple, ast.List)):
                 for elem in target.elts:
+                    yield from unpacked(elem)
+            elif isinstance(target, ast.Starred):
+                yield from unpacked(target.value)
+            else:
+                yield target
+
+        for target in node.targets:
+            if isinstance(target, (ast.Tuple, ast.List)):
+                for elem in unpacked(target):
                     # Note: We skip type and aliasing analysis for this case,
                     #       but we do record line numbers.
                     self._handleAssignment(elem, None, None, lineno)
